@@ -19,7 +19,7 @@ RULE = (
 )
 ASSUMPTIONS = [
     "real-valued parameters are covered on the finite catalogue + VERIF_SEED-indexed generic reals (cond<=1e3) only",
-    "sizes bounded: D<=4, R<=3",
+    "sizes bounded as stated in coverage.bounds (quick: D<=5, R<=5; thorough: D<=6, R<=5)",
 ]
 BOUNDS = {"quick": dict(D=[2, 3, 4], R=[1, 2, 4]), "thorough": dict(D=[2, 3, 4, 5, 6], R=[1, 2, 3, 4, 5])}
 BUDGET = {"quick": 600, "thorough": 3600}
